@@ -33,12 +33,27 @@ Proof.
     destruct (builtin name args) as [[w|e| |]|]; cbn; try apply prefix_refl; apply prefix_nil.
 Qed.
 
+Lemma xvals_prefix h args : Forall (fun e => is_prefix (map ref_of (snd (xval h e))) (refs e)) args ->
+  is_prefix (map ref_of (snd (xvals (xval h) args))) (flat_map refs args) /\
+  (forall vs, fst (xvals (xval h) args) = ROk vs -> map ref_of (snd (xvals (xval h) args)) = flat_map refs args /\ length vs = length args).
+Proof.
+  induction 1 as [|a l Ha Hl IHl]; [split; [apply prefix_nil|intros vs H; inversion H; split; reflexivity]|].
+  destruct IHl as [PL FL]. rewrite xvals_cons. cbn [flat_map].
+  destruct (ebind_trace (xval h a) (fun v => ebind (xvals (xval h) l) (fun vs => (ROk (v :: vs), [])))) as [(w & Hw & T & F)|(N & T & F)].
+  - rewrite T. assert (map ref_of (snd (xval h a)) = refs a) as Ea by (apply (events_postorder h a w Hw)).
+    destruct (ebind_trace (xvals (xval h) l) (fun vs => (ROk (w :: vs), @nil event))) as [(ws & Hws & T2 & F2)|(N2 & T2 & F2)].
+    + rewrite T2. cbn [snd]. rewrite app_nil_r, map_app, Ea. destruct (FL ws Hws) as [EL LL]. rewrite EL.
+      split; [apply prefix_refl|]. intros vs H. split; [reflexivity|]. rewrite F, F2 in H. cbn in H. inversion H. cbn. lia.
+    + rewrite T2, map_app, Ea. split; [apply prefix_app_l, PL|]. intros vs H. rewrite F in H. exfalso. exact (F2 vs H).
+  - rewrite T. split; [apply prefix_app_r, Ha|]. intros vs H. exfalso. exact (F vs H).
+Qed.
+
 Theorem events_prefix_of_postorder h : forall e,
   is_prefix (map ref_of (snd (xval h e))) (refs e) /\
   (forall v, fst (xval h e) = ROk v -> map ref_of (snd (xval h e)) = refs e).
 Proof.
   intros e. split; [|intros v Hv; exact (events_postorder h e v Hv)].
-  induction e as [d|ip fp|fp|pn|pa pb|str|xe|n|k lab|k1 l1 k2 l2|sp name args IHargs|e IH|b l r IHl IHr|e IH] using expr_ind'.
+  induction e as [d|ip fp|fp|pn|pa pb|str|xe|n|k lab|k1 l1 k2 l2|sp name args IHargs|sp items IHitems|e IH|b l r IHl IHr|e IH] using expr_ind'.
   - apply prefix_nil.
   - apply prefix_nil.
   - apply prefix_nil.
@@ -53,20 +68,13 @@ Proof.
     destruct (extract_label (upper_text l2)) as [[r2 c2]|]; [|cbn; apply prefix_nil].
     destruct (p_index r1 <=? p_index r2), (p_index c1 <=? p_index c2); cbn; apply prefix_refl.
   - cbn [xval refs].
-    assert (is_prefix (map ref_of (snd (xvals (xval h) args))) (flat_map refs args) /\
-            (forall vs, fst (xvals (xval h) args) = ROk vs -> map ref_of (snd (xvals (xval h) args)) = flat_map refs args /\ length vs = length args)) as [PA FA].
-    { clear name. induction IHargs as [|a l Ha Hl IHl]; [split; [apply prefix_nil|intros vs H; inversion H; split; reflexivity]|].
-      destruct IHl as [PL FL]. rewrite xvals_cons. cbn [flat_map].
-      destruct (ebind_trace (xval h a) (fun v => ebind (xvals (xval h) l) (fun vs => (ROk (v :: vs), [])))) as [(w & Hw & T & F)|(N & T & F)].
-      - rewrite T. assert (map ref_of (snd (xval h a)) = refs a) as Ea by (apply (events_postorder h a w Hw)).
-        destruct (ebind_trace (xvals (xval h) l) (fun vs => (ROk (w :: vs), @nil event))) as [(ws & Hws & T2 & F2)|(N2 & T2 & F2)].
-        + rewrite T2. cbn [snd]. rewrite app_nil_r, map_app, Ea. destruct (FL ws Hws) as [EL LL]. rewrite EL.
-          split; [apply prefix_refl|]. intros vs H. split; [reflexivity|]. rewrite F, F2 in H. cbn in H. inversion H. cbn. lia.
-        + rewrite T2, map_app, Ea. split; [apply prefix_app_l, PL|]. intros vs H. rewrite F in H. exfalso. exact (F2 vs H).
-      - rewrite T. split; [apply prefix_app_r, Ha|]. intros vs H. exfalso. exact (F vs H). }
+    destruct (xvals_prefix h args IHargs) as [PA FA].
     destruct (ebind_trace (xvals (xval h) args) (fun vs => call_function h name vs)) as [(vs & Hvs & T & F)|(N & T & F)].
     + rewrite T, map_app. destruct (FA vs Hvs) as [EA LA]. rewrite EA. apply prefix_app_l. rewrite <- LA. apply call_function_trace.
     + rewrite T. apply prefix_app_r, PA.
+  - cbn [xval refs]. destruct (xvals_prefix h items IHitems) as [PA FA].
+    destruct (ebind_trace (xvals (xval h) items) (fun vs => (ROk (VList vs), @nil event))) as [(vs & Hvs & T & F)|(N & T & F)];
+      rewrite T; cbn [snd]; rewrite ?app_nil_r; exact PA.
   - cbn [xval refs]. destruct (ebind_trace (xval h e) (fun v => (of_outcome (eval_neg v), []))) as [(w & Hw & T & F)|(N & T & F)];
       rewrite T; cbn [snd]; rewrite ?app_nil_r; exact IH.
   - cbn [xval refs].
